@@ -7,7 +7,7 @@ from ropt.plugins.optimizer.base import OptimizerPlugin
 
 from ..core import PropertyCheck
 
-METH = {"a": "rv-a", "b": "rv-b", "c": "rv-c", "s": "slsqp"}       # spec method -> real method name
+METH = {"a": "rv-a", "b": "rv-b", "c": "rv-c", "s": "slsqp", "t": "scipy/slsqp"}       # spec method -> real method name
 SETS = {1: {"a", "b", "s"}, 2: {"b", "c"}, 3: {"a", "c"}}
 PTYPE = "optimizer"
 
@@ -63,6 +63,8 @@ def drive(sc):
     trace = [{"ev": "Init", "regs": regs}]
     blank = {"raw": "", "p": 1, "prio": False, "plug": "", "meth": "", "names": [], "rawl": "", "plugl": ""}
     for c in sc["calls"]:
+        if c.get("plug") in ("b1", "b2"):          # the bounded instance's built-ins b1/b2 are the installed scipy/external plug-ins
+            c = dict(c, plug={"b1": "scipy", "b2": "External"}[c["plug"]])
         mgr = mgrs[c["m"] - 1]
         e = {"ev": "Call", **blank, **{k: v for k, v in c.items() if k != "ret"}}
         e["rawl"], e["plugl"] = e["raw"].lower(), e["plug"].lower()      # the lower-case forms the specification reasons about
@@ -98,7 +100,7 @@ def extra_scenarios(tier, seed):
     import random
     rng = random.Random(seed)
     adds = [("x", 1), ("X", 2), ("y", 2), ("z", 3), ("Z", 1), ("Y", 3)]
-    reqs = [("", "a"), ("", "b"), ("", "c"), ("", "s"), ("X", "a"), ("x", "c"), ("y", "b"), ("z", "a"), ("external", "s"),
+    reqs = [("", "a"), ("", "b"), ("", "c"), ("", "s"), ("X", "a"), ("x", "c"), ("y", "b"), ("z", "a"), ("external", "s"), ("external", "t"), ("External", "t"),
             ("q", "a"), ("Z", "c"), ("scipy", "s"), ("SciPy", "s")]
     out = []
     for _ in range(2000 if tier == "quick" else 20000):
